@@ -38,6 +38,22 @@ def pairList (j : Json) : Except String (List (String × String)) := do
 
 def jPairs (l : List (String × String)) : Json := jArr (l.map fun (n, v) => jStrs [n, v])
 
+def parseSessOp (j : Json) : Except String (Op Float) := do
+  let k ← getStr j "k"
+  match k with
+  | "eval" =>
+    let e ← parseEval j
+    let sc ← getBool j "scaled"
+    pure (.eval e sc)
+  | "rename" => pure (.rename (← getStr j "name"))
+  | "reset" => pure .reset
+  | _ => throw "bad-op"
+
+/-- the files sorted by model name (the harness sorts the directory listing the same way) -/
+def filesJson (d : Files) : Json :=
+  let sorted := (d.toArray.qsort (fun a b => a.1 < b.1)).toList
+  jArr (sorted.map fun (n, v) => jArr [jStr n, jStrs v])
+
 def handle (j : Json) : Except String Json := do
   let op ← getStr j "op"
   match op with
@@ -80,6 +96,14 @@ def handle (j : Json) : Except String Json := do
     let new ← getStr j "new"
     let states := (List.range (ops.length + 1)).map fun k => jOptStr ((crash d ops k).get file)
     pure (Json.mkObj [("safe", jBool (crashSafeB d ops file new)), ("states", jArr states)])
+  | "session" =>
+    let name ← getStr j "name"
+    let ops ← (← getArr j "ops").toList.mapM parseSessOp
+    let s0 : Sess Float := ⟨name, none, []⟩
+    pure (Json.mkObj [("files", jArr ((strace geF s0 ops).map filesJson)),
+                      ("best", match (srun geF s0 ops).best with
+                                | none => Json.null
+                                | some b => fbits b)])
   | _ => throw "bad-op"
 
 def main : IO Unit := Drv.run handle
